@@ -237,7 +237,7 @@ PROPS = {
         "exhaustive_part": "",
     },
     "C14": {
-        "engine": "sock",
+        "engine": ["sock", "queue"],
         "level_text": "Lean 4 theorems C14.counters_add_up / unbuffered_attempts_are_emits / exact_under_concurrency (fetch_adds commute: any interleaving of any number of threads gives the same totals) + correspondence of stats() after every op against the datagrams the peer actually received, incl. EMSGSIZE / ENOENT / EAGAIN failures and reads through a wrapping queuing sink.",
         "level_note": _S_NOTE + "; counters are Nat (2^64 wrap-around out of physical reach)",
         "technique": "Lean 4 proof (fold over attempts; permutation invariance of increments) + stats-vs-received-datagrams correspondence",
